@@ -4,7 +4,7 @@ patch=$1; prop=$2; tier=${3:-quick}
 cd /repo || exit 2
 if ! git diff --quiet; then echo "/repo working tree not clean"; exit 2; fi
 git apply "$patch" || { echo "patch does not apply"; exit 2; }
-cd /verif && ./check $prop $tier | tail -${TAILN:-6}
+cd /verif && VERIF_EVIDENCE_DIR=/verif/target/scratch-evidence ./check $prop $tier | tail -${TAILN:-6}
 rc=$?
 git -C /repo checkout -- .
 git -C /repo status --short
